@@ -40,6 +40,10 @@ void xbin(Rng& rng)
             { XHEAD("xbin", "add") VH_RUN(a + b, print_elx) }
             { XHEAD("xbin", "sub") VH_RUN(a - b, print_elx) }
             { XHEAD("xbin", "mul") VH_RUN(a * b, print_elx) }
+            if (!r.zero()) {  // (a zero divisor in multi-word storage is outside the property and not modelled)
+                { XHEAD("xbin", "div") VH_RUN(a / b, print_elx) }
+                { XHEAD("xbin", "mod") VH_RUN(a % b, print_elx) }
+            }
             { XHEAD("xcmp", "lt") VH_RUN(a < b, print_tv) }
             { XHEAD("xcmp", "eq") VH_RUN(a == b, print_tv) }
             { XHEAD("xcmp", "ge") VH_RUN(a >= b, print_tv) }
@@ -51,4 +55,235 @@ void xbin(Rng& rng)
         fputs(" => ", stdout);
         VH_RUN(-a, print_elx)
     }
+}
+
+// ---------------------------------------------------------------------------------------------
+// `/` and `%` over multi-word storage: structured operands.  The magnitudes are built here with schoolbook
+// arithmetic on 32-bit words (no library arithmetic), every sign combination is run, and each pair also yields an
+// `xident` line: (n / d) * d + n % d evaluated in elastic arithmetic (must give n back).
+
+inline Big mag_add(Big const& a, Big const& b)  // |a| + |b|
+{
+    Big r;
+    std::uint64_t c = 0;
+    for (std::size_t i = 0; i < std::max(a.m.size(), b.m.size()) || c; ++i) {
+        c += (i < a.m.size() ? a.m[i] : 0u);
+        c += (i < b.m.size() ? b.m[i] : 0u);
+        r.m.push_back(std::uint32_t(c));
+        c >>= 32;
+    }
+    r.norm();
+    return r;
+}
+inline int mag_cmp(Big const& a, Big const& b)
+{
+    if (a.m.size() != b.m.size()) return a.m.size() < b.m.size() ? -1 : 1;
+    for (std::size_t i = a.m.size(); i-- > 0;)
+        if (a.m[i] != b.m[i]) return a.m[i] < b.m[i] ? -1 : 1;
+    return 0;
+}
+inline Big mag_sub(Big const& a, Big const& b)  // |a| - |b|, requires |a| >= |b|
+{
+    Big r;
+    std::int64_t bor = 0;
+    for (std::size_t i = 0; i < a.m.size(); ++i) {
+        std::int64_t t = std::int64_t(a.m[i]) - (i < b.m.size() ? std::int64_t(b.m[i]) : 0) - bor;
+        bor = t < 0;
+        if (t < 0) t += (std::int64_t(1) << 32);
+        r.m.push_back(std::uint32_t(t));
+    }
+    r.norm();
+    return r;
+}
+inline Big mag_mul(Big const& a, Big const& b)
+{
+    Big r;
+    r.m.assign(a.m.size() + b.m.size() + 1, 0);
+    for (std::size_t i = 0; i < a.m.size(); ++i) {
+        std::uint64_t c = 0;
+        for (std::size_t j = 0; j < b.m.size() || c; ++j) {
+            std::uint64_t t = std::uint64_t(r.m[i + j]) + c + (j < b.m.size() ? std::uint64_t(a.m[i]) * b.m[j] : 0);
+            r.m[i + j] = std::uint32_t(t);
+            c = t >> 32;
+        }
+    }
+    r.norm();
+    return r;
+}
+inline Big mag_shl(Big const& a, int k)
+{
+    Big r;
+    int n = a.bitlen();
+    r.m.assign(std::size_t((n + k) / 32 + 1), 0);
+    for (int i = 0; i < n; ++i)
+        if (a.bit(i)) r.m[std::size_t((i + k) / 32)] |= 1u << ((i + k) % 32);
+    r.norm();
+    return r;
+}
+// magnitude from limbs of `w` bits, least significant first
+inline Big mag_limbs(std::vector<std::uint64_t> const& l, int w)
+{
+    Big r;
+    r.m.assign(l.size() * std::size_t(w) / 32 + 2, 0);
+    for (std::size_t i = 0; i < l.size(); ++i)
+        for (int j = 0; j < w; ++j)
+            if ((l[i] >> j) & 1) r.m[(i * std::size_t(w) + std::size_t(j)) / 32] |= 1u << ((i * std::size_t(w) + std::size_t(j)) % 32);
+    r.norm();
+    return r;
+}
+inline Big with_sign(Big b, bool neg)
+{
+    b.neg = neg && !b.zero();
+    return b;
+}
+
+// limb patterns: 0 zero, 1 one, 2 all ones, 3 top bit, 4 top bit clear rest set, 5 all ones but the lowest, 6.. random
+inline std::uint64_t limb_pat(Rng& rng, int w, int which)
+{
+    std::uint64_t const m = w == 64 ? ~std::uint64_t(0) : ((std::uint64_t(1) << w) - 1);
+    switch (which) {
+    case 0: return 0;
+    case 1: return 1;
+    case 2: return m;
+    case 3: return (m >> 1) + 1;
+    case 4: return m >> 1;
+    case 5: return m - 1;
+    default: return rng.next() & m;
+    }
+}
+
+// a magnitude of exactly `k` limbs of `w` bits whose top limb is `top` (non-zero)
+inline Big mag_shape(Rng& rng, int w, int k, std::uint64_t top, int fill)
+{
+    std::vector<std::uint64_t> l;
+    for (int i = 0; i + 1 < k; ++i) l.push_back(limb_pat(rng, w, fill < 0 ? rng.below(9) : fill));
+    l.push_back(top);
+    return mag_limbs(l, w);
+}
+
+// Operands for which Knuth's algorithm D (limbs of `w` bits, base b = 2^w) takes the rare step D6 ("add back"):
+// v = vh*b^(nv-1) + vlow with vh >= b/2 (normalisation factor 1), second limb 0 and 0 < vlow < b^(nv-2); with
+// u = q*v + r, 1 <= q <= b-2 and v - (q+1)*vlow <= r < v the trial digit floor(top two limbs of u / vh) is q+1,
+// the D3 test (which only looks at the second limb of v) accepts it, and the multiply-and-subtract borrows.
+// The classic vector u = 7fffffff 80000000 0 0, v = 80000000 0 1 is the member vh = b/2, vlow = 1, q = b-2,
+// r = v-1-(b-2).  `hq` further quotient limbs above and `k` limbs below move the step to any quotient position.
+struct AddBack {
+    Big u, v;
+};
+inline AddBack addback(Rng& rng, int w, int nv, int k, int hq, int variant)
+{
+    std::uint64_t const m = w == 64 ? ~std::uint64_t(0) : ((std::uint64_t(1) << w) - 1);
+    std::uint64_t const half = (m >> 1) + 1;
+    std::uint64_t vh = variant == 0 ? half : variant % 4 == 1 ? m : variant % 4 == 2 ? half + 1 : (half | (rng.next() & m));
+    std::vector<std::uint64_t> vl;
+    if (variant == 0) {
+        vl.push_back(1);
+        for (int i = 1; i < nv - 2; ++i) vl.insert(vl.begin(), 0);  // vlow = b^(nv-3): "…, 1, 0, 0"
+    } else {
+        for (int i = 0; i < nv - 2; ++i) vl.push_back(limb_pat(rng, w, rng.below(10)));
+        if (vl.back() == 0) vl.back() = 1 + (rng.next() & (m >> 1));
+    }
+    Big vlow = mag_limbs(vl, w);
+    std::vector<std::uint64_t> vv = vl;
+    vv.push_back(0);
+    vv.push_back(vh);
+    Big v = mag_limbs(vv, w);
+    std::uint64_t q = variant == 0 ? m - 1 : variant % 3 == 0 ? 1 + rng.next() % (m - 1) : variant % 3 == 1 ? m - 1 : half;
+    if (q > m - 1) q = m - 1;
+    if (q < 1) q = 1;
+    Big qb = mag_limbs({q}, w), q1 = mag_limbs({q + 1}, w);
+    Big span = mag_mul(q1, vlow);  // r ranges over [v - span, v - 1]
+    Big s;
+    switch (variant == 0 ? 5 : rng.below(5)) {
+    case 0: s = Big(); break;                              // r = v - 1
+    case 1: s = mag_sub(span, big_small(1)); break;        // r = v - span: the last operand that adds back
+    case 2: s = big_shr(span, 1); break;
+    case 3: s = big_shr(span, 1 + rng.below(w)); break;
+    case 4: s = span; break;                               // r = v - span - 1: the first operand that does not
+    default: s = mag_limbs({m - 1}, w); break;             // classic vector (vlow = 1, q = b - 2)
+    }
+    if (mag_cmp(s, mag_sub(v, big_small(1))) > 0) s = Big();
+    Big r = mag_sub(mag_sub(v, big_small(1)), s);
+    // quotient limbs above the add-back digit
+    std::vector<std::uint64_t> ql{q};
+    for (int i = 0; i < hq; ++i) ql.push_back(limb_pat(rng, w, 2 + rng.below(7)));
+    Big u = mag_add(mag_mul(mag_limbs(ql, w), v), r);
+    if (k > 0) {
+        std::vector<std::uint64_t> low;
+        for (int i = 0; i < k; ++i) low.push_back(limb_pat(rng, w, rng.below(9)));
+        u = mag_add(mag_shl(u, k * w), mag_limbs(low, w));
+    }
+    return {u, v};
+}
+
+#define XDHEAD(KIND) \
+    printf("C05 " KIND " %d %s %d %s ", LD, tn<LN>().c_str(), RD, tn<RN>().c_str()); \
+    big_print(l); \
+    putchar(' '); \
+    big_print(r); \
+    fputs(" => ", stdout);
+
+template<int LD, class LN, int RD, class RN>
+void xdiv_pair(Big const& lm, Big const& rm)
+{
+    constexpr bool ls = std::is_signed_v<LN>, rs = std::is_signed_v<RN>;
+    if (rm.zero() || lm.bitlen() > LD || rm.bitlen() > RD) return;
+    for (int sg = 0; sg < 4; ++sg) {
+        bool ln = sg & 1, rn = sg & 2;
+        if ((ln && (!ls || lm.zero())) || (rn && !rs)) continue;
+        Big l = with_sign(lm, ln), r = with_sign(rm, rn);
+        auto a = mk_el<LD, LN>(l);
+        auto b = mk_el<RD, RN>(r);
+        { XHEAD("xbin", "div") VH_RUN(a / b, print_elx) }
+        { XHEAD("xbin", "mod") VH_RUN(a % b, print_elx) }
+        { XDHEAD("xident") VH_RUN((a / b) * b + a % b, print_elx) }
+    }
+}
+
+template<int LD, class LN, int RD, class RN>
+void xdiv(Rng& rng)
+{
+    static_assert(sizeof(LN) == sizeof(RN));
+    constexpr int w = int(sizeof(LN)) * 8;
+    std::uint64_t const m = w == 64 ? ~std::uint64_t(0) : ((std::uint64_t(1) << w) - 1);
+    int const sc = scale_from_env();
+    auto pair = [&](Big const& l, Big const& r) { xdiv_pair<LD, LN, RD, RN>(l, r); };
+    constexpr int nr = (RD + w - 1) / w;
+    // divisors of 1, 2, 3, ... limbs: top limb 1, all ones, 100.., 011.., random; lower limbs zeros / ones / random
+    std::uint64_t const tops[] = {1, m, (m >> 1) + 1, m >> 1, 0 /* random */};
+    for (int k = 1; k <= nr; k = (k < 4 || k + 2 >= nr) ? k + 1 : k + 1 + rng.below(nr / 3 + 1))
+        for (std::uint64_t top : tops)
+            for (int rep = 0; rep < 2 * sc; ++rep) {
+                std::uint64_t t = top ? top : 1 + rng.next() % m;
+                if (k == nr && RD % w) t &= (std::uint64_t(1) << (RD % w)) - 1;
+                if (t == 0) t = 1;
+                Big d = mag_shape(rng, w, k, t, rep == 0 ? 0 : rep == 1 ? 2 : -1);
+                Big d1 = mag_sub(d, big_small(1));
+                // dividends: random; q*d, q*d + (d-1), q*d + r with q filling what is left of the dividend's digits;
+                // smaller than, equal to, one more than the divisor
+                pair(big_rand(rng, 1 + rng.below(LD)), d);
+                pair(big_rand(rng, LD), d);
+                int qbits = LD - d.bitlen();
+                if (qbits >= 1) {
+                    Big q = rep % 2 ? big_ones(qbits) : big_rand(rng, qbits);
+                    Big qd = mag_mul(q, d);
+                    pair(qd, d);
+                    pair(mag_add(qd, d1), d);
+                    if (!qd.zero()) pair(mag_sub(qd, big_small(1)), d);
+                    pair(mag_add(qd, big_shr(d, 1 + rng.below(w))), d);
+                }
+                pair(d1, d);
+                pair(d, d);
+                pair(mag_add(d, big_small(1)), d);
+                pair(big_shr(d, 1 + rng.below(2 * w)), d);
+                pair(mag_add(d, d1), d);  // 2d - 1: quotient 1, remainder d - 1
+            }
+    // add-back operands at every divisor length and quotient position that fit
+    for (int nv = 3; nv <= RD / w; ++nv)
+        for (int hq = 0; hq <= 2; ++hq)
+            for (int k = 0; nv + 1 + hq + k <= LD / w; k = k < 2 ? k + 1 : k + 1 + rng.below(3))
+                for (int variant = 0; variant < 2 + 3 * sc; ++variant) {
+                    AddBack ab = addback(rng, w, nv, k, hq, variant);
+                    pair(ab.u, ab.v);
+                }
 }
